@@ -112,6 +112,9 @@ func genVP9Frame(t *core.Tape, mtu int) vp9Frame {
 		w.put(uint64(t.Intn(2)), 1)
 	}
 	size := nalSize(t, mtu, len(w.b), []int{3, 11, 3}[t.Intn(3)])
+	if t.Chance(1, 1000) && mtu >= 1000 {
+		size = 65530 + t.Intn(3000) // frames above 64 KiB exist (key frames); 16-bit length arithmetic must not
+	}
 	if size < len(w.b)+1 {
 		size = len(w.b) + 1
 	}
